@@ -396,6 +396,35 @@ theorem clone_independent (s : Store) (a : Handle) (ha : a.arr < s.length) (ops 
     simp [Store.clone, read_append _ _ _ ha]
   · rw [applyAll_other ops _ _ a hb ha' (Ne.symm hne), hread]
 
+/-- **independence of `clone(dtype)`**, for every conversion `f` — in particular the identity, i.e. `dtype` equal to
+the grid's own dtype (what `Catchment.__init__` does with an int64 flow-direction grid): the clone holds the
+converted words in a NEW array; afterwards writes through the clone never reach the original and writes through the
+original never reach the clone -/
+theorem cloneAs_independent (s : Store) (a : Handle) (ha : a.arr < s.length) (f : Nat → Nat) (ops : List SOp) :
+    (s.cloneMap a f).1.read (s.cloneMap a f).2 = (s.read a).map (fun r => r.map f) ∧
+    (s.cloneMap a f).2.arr ≠ a.arr ∧
+    (applyAll (s.cloneMap a f).1 (s.cloneMap a f).2 ops).1.read a = s.read a ∧
+    (applyAll (s.cloneMap a f).1 a ops).1.read (s.cloneMap a f).2 = (s.read a).map (fun r => r.map f) := by
+  have hb : (s.cloneMap a f).2.arr < (s.cloneMap a f).1.length := by simp [Store.cloneMap]
+  have ha' : a.arr < (s.cloneMap a f).1.length := by simp [Store.cloneMap]; omega
+  have hne : a.arr ≠ (s.cloneMap a f).2.arr := by simp [Store.cloneMap]; omega
+  have hread : (s.cloneMap a f).1.read (s.cloneMap a f).2 = (s.read a).map (fun r => r.map f) := by
+    simp [Store.cloneMap, read_append_new]
+  refine ⟨hread, Ne.symm hne, ?_, ?_⟩
+  · rw [applyAll_other ops _ a _ ha' hb hne]
+    simp [Store.cloneMap, read_append _ _ _ ha]
+  · rw [applyAll_other ops _ _ a hb ha' (Ne.symm hne), hread]
+
+/-- `clone(dtype)` with the grid's own dtype is the grid itself (same words): `astype` has nothing to convert -/
+theorem cloneAs_same {ν : Type} (io : NumIO ν) (g : Grid ν) : cloneAs io g g.dtype = g := by
+  unfold cloneAs
+  have hw : ∀ w, astypeWord io g.dtype g.dtype w = w := by intro w; simp [astypeWord]
+  have hr : ∀ r : List Nat, r.map (astypeWord io g.dtype g.dtype) = r := fun r =>
+    (List.map_congr_left (fun w _ => hw w)).trans (List.map_id _)
+  have hd : g.data.map (fun r => r.map (astypeWord io g.dtype g.dtype)) = g.data :=
+    (List.map_congr_left (fun r _ => hr r)).trans (List.map_id _)
+  rw [hd]
+
 /-! ## 7. clip -/
 
 section ClipThm
